@@ -450,10 +450,12 @@ SX_TRIG = {
     "footnote": "[^u]: unref\n",
     "deprecated": "plain text, the trigger is `attrs_image` in conf.py\n",
     "domains": "[](#nolabel4)\n",  # conf.py registers a third-party domain without resolve_any_xref
+    "mathjax": "$x$ and text\n",  # conf.py presets mathjax3_config['options']['processHtmlClass']: MyST reports the override (untagged; no tag outside the catalogue)
 }
+MATHJAX_CONF = "mathjax3_config = {'options': {'processHtmlClass': 'other-class'}}\n"
 LEGACY_DOMAIN_CONF = ("from sphinx.domains import Domain\n\n\nclass LegacyDomain(Domain):\n    name = 'legacy'\n    label = 'Legacy'\n\n\n"
                       "def setup(app):\n    app.add_domain(LegacyDomain)\n")
-SX_EXPECT = {"xref_missing": "myst.xref_missing", "iref_missing": "myst.iref_missing", "footnote": "ref.footnote"}
+SX_EXPECT = {"xref_missing": "myst.xref_missing", "iref_missing": "myst.iref_missing", "footnote": "ref.footnote", "mathjax": None}
 
 
 class SphinxSystem(System):
@@ -505,8 +507,8 @@ class SphinxSystem(System):
         src.mkdir(parents=True)
         (src / "conf.py").write_text(
             "extensions=['myst_parser','sphinx.ext.intersphinx']\n"
-            "myst_enable_extensions=['strikethrough','substitution','attrs_inline','html_image','html_admonition','colon_fence'" + (",'attrs_image'" if key == "deprecated" else "") + "]\n"
-            f"suppress_warnings={sup!r}+['image.not_readable']\nmyst_heading_anchors=2\nkeep_warnings=True\n" + (LEGACY_DOMAIN_CONF if key == "domains" else ""))
+            "myst_enable_extensions=['strikethrough','substitution','attrs_inline','html_image','html_admonition','colon_fence'" + (",'attrs_image'" if key == "deprecated" else "") + (",'dollarmath'" if key == "mathjax" else "") + "]\n"
+            f"suppress_warnings={sup!r}+['image.not_readable']\nmyst_heading_anchors=2\nkeep_warnings=True\n" + (LEGACY_DOMAIN_CONF if key == "domains" else "") + (MATHJAX_CONF if key == "mathjax" else ""))
         (src / "index.md").write_text(text)
         app = SphinxTestApp(srcdir=src, buildername="html")
         try:
@@ -528,13 +530,16 @@ class SphinxSystem(System):
         w0, d0 = self.observe(key, text, [], 0)
         tg = sorted(set(tags(w0)))
         want = SX_EXPECT.get(key, "myst." + key)
-        if want not in tg:
+        if want is None:
+            if "is being overridden by myst-parser" not in w0:
+                viol.append(violation("emit", {"clause": "emit", "front_end": "sphinx", "trigger": key}, f"Sphinx: trigger {key}: the override report is missing; log: {w0!r}", text=text))
+        elif want not in tg:
             viol.append(violation("emit", {"clause": "emit", "front_end": "sphinx", "trigger": key}, f"Sphinx: trigger {key} did not emit [{want}]; log: {w0!r}", text=text))
         for t in tg:
             if t.startswith("myst.") and t not in CATALOGUE:
                 viol.append(violation("catalogue", {"clause": "catalogue", "front_end": "sphinx", "tag": t}, f"Sphinx: tag [{t}] not in the catalogue"))
         n = 0
-        if want in tg:
+        if want is not None and want in tg:
             ty = want.split(".")[0]
             for sup in ([want], [ty], [ty + ".*"]):
                 n += 1
@@ -547,7 +552,7 @@ class SphinxSystem(System):
                     viol.append(violation("suppress-tree", {"clause": "suppress-tree", "front_end": "sphinx", "trigger": key},
                                           f"Sphinx suppress_warnings={sup}: stored doctree changed beyond the removal of the tagged system messages",
                                           text=text, diff=_diff(strip_nodes(d0, sup), d1.pformat())))
-        return Obs(digest=(key, tuple(tg)), nontrivial=want in tg, violations=viol[:3], transitions=n + 1, validated=n)
+        return Obs(digest=(key, tuple(tg)), nontrivial=want is None or want in tg, violations=viol[:3], transitions=n + 1, validated=n)
 
 
 def systems(tier):
